@@ -37,9 +37,16 @@ RULE = ("deterministic boundary corpus (all 3-heartbeat streams on a half-second
         "same start/end instants plus a later event) then seeded random streams of 0-14 heartbeats (units 1 ms / "
         "0.5 s / 1 s, microsecond duration offsets, 1-3 data values, fractional pulsetimes), then out-of-domain "
         "streams (equal/decreasing timestamps, negative durations, heartbeats carrying ids) for correspondence "
-        "only; every case runs on memory, sqlite (temp file) and peewee (temp file) through Datastore/Bucket; "
+        "only; multi-day durations; every case runs on memory, sqlite (temp file) and peewee (temp file) through "
+        "Datastore/Bucket; LIFECYCLES (harness/c07_life.py): 28 hand-written + 160 (thorough 6000) seeded cases of 2-7 "
+        "phases on ONE storage object or on two alive at once (same ids, different creation order), each phase = store "
+        "operations (fed bucket deleted and created again, other buckets deleted / created / written, issued on the "
+        "storage or through Datastore.create_bucket/delete_bucket) then a heartbeat stream; expected = heartbeat_reduce "
+        "of what was fed since the bucket was created; streams of 10 001+ heartbeats (merging; and never merging next "
+        "to a 10 001-event insert_many, on sqlite); findings re-run and shrunk alone in a fresh process; "
         "non-trivial = an in-domain run in which at least one heartbeat was merged into a bucket already holding "
-        "two or more events or inserted after a refused merge")
+        "two or more events or inserted after a refused merge; for a lifecycle: a merge after the fed bucket was "
+        "re-created, or two storage objects")
 
 PULSES = [0, 0.5, 1, 2.5, 2, 5, 0.001, 0.0000005, 1e-6, 3.0000015, 60]
 META = [1, 1, 1, 0, None, 0]
